@@ -19,7 +19,7 @@ FUNCTIONS = ["DimensionSet.no_repeated_dimensions", "DimensionSet.copy_dim_list"
 ASSUMPTIONS = ["dimension names concrete, pairwise distinct, >= 2 characters", "dimensions handed to a mutator together (expand_by) have pairwise distinct letters",
                "replace(key, d) with d's letter equal to the replaced dimension's own letter: either outcome accepted (the property only speaks of clashes)"]
 OUTSIDE = ["sets with more than 4 dimensions", "letters that coincide with names"]
-VARIANTS = 'every insert position incl. negative; dimensions sharing a name; receivers looked up before every operation'
+VARIANTS = 'every insert position incl. negative; dimensions sharing a name; receivers looked up before every operation; keys as one-shot iterables; Dimension + set'
 BOUNDS = {"quick": dict(sizes="|A|,|B| <= 3, all pairs", ops="| & - ^ + get_subset [] in index size shape total_size append prepend insert expand_by replace drop copy constructor",
                         histories="2-step sequences of in-place / out-of-place mutators"),
           "thorough": dict(sizes="|A|,|B| <= 4", ops="as quick", histories="2- and 3-step sequences")}
